@@ -15,12 +15,12 @@ import (
 type Origin uint8
 
 const (
-	oIN  Origin = 1 << iota // (part of) the parsed input line: values
-	oKEY                    // object keys of the input
-	oTBL                    // operator tables
-	oCFG                    // option globals
-	oSAN                    // constants, fresh containers, sanitiser results, library results without input operands
-	oHTBL                   // a fresh container that holds references to operator-table nodes (a shallow copy of a table map)
+	oIN   Origin = 1 << iota // (part of) the parsed input line: values
+	oKEY                     // object keys of the input
+	oTBL                     // operator tables
+	oCFG                     // option globals
+	oSAN                     // constants, fresh containers, sanitiser results, library results without input operands
+	oHTBL                    // a fresh container that holds references to operator-table nodes (a shallow copy of a table map)
 )
 
 func (o Origin) String() string {
@@ -446,10 +446,10 @@ func (p *Prov) Of(v ssa.Value) Origin {
 type Atom struct {
 	Kind string // tbl, typeis, dollar, nil, cfg, param, ok, err, strconst, or, other
 	Pol  bool
-	Name string      // tbl: enum name; cfg: global name; param: name; strconst: constant; ok: callee
-	X    ssa.Value   // subject value (typeis/dollar/nil)
-	Type types.Type  // typeis
-	Or   []Atom      // disjunction
+	Name string     // tbl: enum name; cfg: global name; param: name; strconst: constant; ok: callee
+	X    ssa.Value  // subject value (typeis/dollar/nil)
+	Type types.Type // typeis
+	Or   []Atom     // disjunction
 	Src  ssa.Value
 }
 
